@@ -271,13 +271,19 @@ def handleSalt (toks : List String) : String :=
 /-! ## blob directory machine and read decision -/
 
 def handleBlob (toks : List String) : String :=
-  let ops : List BlobOp := toks.filterMap fun t =>
-    if t == "o" then some .open else if t == "x" then some .damage else if t == "d" then some .delete else if t == "n" then some .construct
-    else match t.splitOn ":" with
-      | ["b", ds, names] => some (.build ds.toNat! ((names.splitOn ",").filter (· ≠ "")))
-      | ["i", ds, names] => some (.install ds.toNat! ((names.splitOn ",").filter (· ≠ "")))
-      | _ => none
-  let (_, outs) := ({} : BlobDir).run ops
+  -- every token may carry "@k": the operation concerns the k-th blob name of the directory (default 0)
+  let ops : List (Nat × BlobOp) := toks.filterMap fun t0 =>
+    let (t, k) : String × Nat := match t0.splitOn "@" with
+      | [a, b] => (a, b.toNat!)
+      | _ => (t0, 0)
+    let op : Option BlobOp :=
+      if t == "o" then some .open else if t == "x" then some .damage else if t == "d" then some .delete else if t == "n" then some .construct
+      else match t.splitOn ":" with
+        | ["b", ds, names] => some (.build ds.toNat! ((names.splitOn ",").filter (· ≠ "")))
+        | ["i", ds, names] => some (.install ds.toNat! ((names.splitOn ",").filter (· ≠ "")))
+        | _ => none
+    op.map (fun o => (k, o))
+  let (_, outs) := BlobStore.run ([] : BlobStore) ops
   let showOut : BlobOut → String
     | .built => "built"
     | .served ms => "served:" ++ ",".intercalate (ms.map (fun m => s!"{m.name}@{m.dataset}"))
